@@ -26,7 +26,7 @@ Ev == Tr[l]
 \* choice the implementation has)
 ClassOf(p, r) ==
     LET busy == IF r # <<>> THEN ".ra" ELSE ""                          \* an SDU is in reassembly
-        big  == IF Len(p.body) > mtu + 4 THEN ".big" ELSE "" IN         \* the PDU alone is larger than an SDU buffer
+        big  == IF r = <<>> /\ Len(p.body) > mtu + 4 THEN ".big" ELSE "" IN   \* the PDU alone is larger than an SDU buffer
     IF p.llid = Ctrl THEN "ctrl" \o busy
     ELSE IF p.llid = Start THEN "start_" \o StartClass(p) \o busy \o big
     ELSE IF r = <<>> THEN "cont_stray" \o big
